@@ -4,7 +4,6 @@
   its samples are what the streaming decoder returns for the same bytes.
 -/
 import FlacModel.Props.C17
-import FlacModel.Props.C01b
 import FlacModel.Proofs.CodecConv
 
 namespace Flac.C17
@@ -149,7 +148,7 @@ theorem parse_agrees_with_decoder (p : Profile) (cw : Bool) (si : Option SInfo) 
     (hr : recorrelate p pr.frame.hdr.assign pr.frame.hdr.bps xss = .ok out) :
     decodeFrame p si bytes = .ok { hdr := pr.frame.hdr, channels := out, used := (bytes.take pr.used).length } := by
   obtain ⟨e, w⟩ := struct_parse_reserializes cw si bytes hb pr h h16 hbps
-  have := Flac.C01.frame_roundtrip p si pr.frame xss out w hx hr
+  have := Flac.decodeFrame_serialize p si pr.frame xss out w hx hr
   rw [e] at this
   have := decodeFrame_ext p si _ _ this (bytes.drop pr.used)
   rwa [List.take_append_drop] at this
